@@ -664,7 +664,6 @@ def _process_internal_events_without_default_matchers(
                         state=state,
                         flow_state=flow_state,
                         matching_scores=event.matching_scores,
-                        deactivate_flow=flow_state.activated > 0,
                     )
                     assert flow_state.loop_id
                     handled_event_loops.add(flow_state.loop_id)
